@@ -150,6 +150,8 @@ func runC12(c *Ctx, tier string) {
 	runCreatePoolOrder(c, "C12-N1")
 	// P4
 	runC12P4(c)
+	// P5
+	runC12P5(c)
 }
 
 func runC12P1(c *Ctx) {
@@ -766,5 +768,53 @@ func runC12P4(c *Ctx) {
 		} else {
 			c.Fail("C12-P4", spec.fn+" passes its constraint on", fn.Pos(), "the constraint given by the caller is not the one handed to "+spec.callee)
 		}
+	}
+}
+
+// runC12P5: a loaded journal position never runs ahead of completely written entries.
+// HEAD is written after the entry is complete, so positions taken from HEAD are safe.  Positions
+// found by probing for the existence of entry files are only safe if entries appear atomically,
+// which the local file engine's PutIfNotExists (create O_EXCL, then fill) does not provide.
+func runC12P5(c *Ctx) {
+	p := c.P
+	c.Rule("C12-P5", "the journal store never loads past an entry that may still be half written: positions come from HEAD, or — if entry existence is probed — the file engine's PutIfNotExists makes entries appear atomically (rename/link)")
+	load := p.Func("(*lake/journal.Store).load")
+	pine := p.Func("(*pkg/storage.FileSystem).PutIfNotExists")
+	if load == nil || pine == nil {
+		c.Undecided("C12-P5", "journal.Store.load / FileSystem.PutIfNotExists", "anchors do not resolve")
+		return
+	}
+	var probe ssa.Instruction
+	var where *ssa.Function
+	for g := range reachableStatic([]*ssa.Function{load}, func(f *ssa.Function) bool { return p.PkgOf(f) == "lake/journal" }) {
+		for _, ci := range allCalls(g) {
+			cc := ci.Common()
+			if !isEngineMethod(cc, "Exists", "Size", "List") {
+				continue
+			}
+			for _, a := range cc.Args {
+				if dependsOn(a, func(v ssa.Value) bool {
+					call, ok := v.(*ssa.Call)
+					return ok && (calleeName(call.Common()) == "(*lake/journal.Queue).uri" || isFieldLoad(v, "path"))
+				}) {
+					probe, where = ci.(ssa.Instruction), g
+				}
+			}
+		}
+	}
+	atomic := false
+	for _, ci := range allCalls(pine) {
+		switch calleeName(ci.Common()) {
+		case "os.Rename", "os.Link":
+			atomic = true
+		}
+	}
+	switch {
+	case probe == nil:
+		c.OK("C12-P5", "(*lake/journal.Store).load position source", load.Pos(), "no existence probing of entry files on the load path: positions come from HEAD, which is written after the entry is complete")
+	case atomic:
+		c.OK("C12-P5", "(*lake/journal.Store).load position source", probe.Pos(), "entry existence is probed, and the file engine publishes entries atomically")
+	default:
+		c.Fail("C12-P5", "(*lake/journal.Store).load position source", probe.Pos(), "the journal store advances to positions found by probing for entry files ("+fnName(where)+"), but the local file engine's PutIfNotExists creates the file before filling it: a reader can load an empty/half-written entry, record that position as loaded, pass a constraint against the stale table and commit on top of it — an acknowledged update is lost")
 	}
 }
